@@ -28,7 +28,7 @@ func init() {
 	register(&Rule{ID: "R-POOLSCOPE", Min: 3, Run: rulePoolScope,
 		Doc: "no engine struct and no package-level variable has a type that can hold a *VectorPool or *SelectorPool, and both pool constructors are called only from functions of the plan-construction tree"})
 	register(&Rule{ID: "R-FOREIGNAPPEND", Min: 1, Run: ruleForeignAppend,
-		Doc: "an append whose base slice comes from a parameter of an exported function or from a package-level variable and whose result is kept (stored into a field, a global, or a returned value) must first copy: the base is a fresh slice or a full slice expression"})
+		Doc: "an append whose base slice comes from a parameter of an exported function, from a package-level variable or from a field of the parsed expression (directly, or through a parameter of an unexported helper) and whose result is kept (stored into a field, a global, or a returned value) must first copy: the base is a fresh slice or a full slice expression"})
 	register(&Rule{ID: "R-INTCONV", Min: 2, Run: ruleIntConv,
 		Doc: "every float-to-integer conversion in execution/... whose operand depends on a value that arrives at run time (a parameter, a field, a slice element) is dominated by a branch that tests that same value (NaN/range check)"})
 	register(&Rule{ID: "R-SAMPLE0", Min: 4, Run: ruleSample0,
@@ -57,6 +57,8 @@ func init() {
 		Old: "\tif opts != nil && opts.LookbackDelta > 0 {\n\t\treturn opts.LookbackDelta\n\t}", New: "\tif opts != nil && opts.LookbackDelta > 0 {\n\t\te.lookbackDelta = opts.LookbackDelta\n\t}", Expect: "lookbackDelta"})
 	mutant(Mutant{Rule: "R-ENGINEWO", Name: "engine-level-counter", File: "engine/engine.go",
 		Old: "\tdisableFallback   bool\n\tlogger            log.Logger\n", New: "\tdisableFallback   bool\n\tcreated           sync.Map\n\tlogger            log.Logger\n", Old2: "\tlplan := logicalplan.New(expr, ts, ts)\n", New2: "\te.created.Store(qs, ts)\n\tlplan := logicalplan.New(expr, ts, ts)\n", Expect: "created"})
+	mutant(Mutant{Rule: "R-FOREIGNAPPEND", Name: "append-into-the-parsed-matcher-list", File: "logicalplan/propagate_selectors.go",
+		Old: "\tres := append(own[:len(own):len(own)], extra...)\n", New: "\tres := append(own, extra...)\n", Expect: "withMatchers"})
 	mutant(Mutant{Rule: "R-FOREIGNAPPEND", Name: "append-into-callers-slice", File: "engine/engine.go",
 		Old: "\toptimizers := make([]logicalplan.Optimizer, 0, len(opts.LogicalOptimizers)+1)\n\toptimizers = append(optimizers, opts.LogicalOptimizers...)\n\topts.LogicalOptimizers = append(optimizers, ", New: "\topts.LogicalOptimizers = append(opts.LogicalOptimizers, ", Expect: "NewDistributedEngine"})
 	mutant(Mutant{Rule: "R-INTCONV", Name: "k-unchecked", File: "execution/aggregate/khashaggregate.go",
@@ -963,7 +965,7 @@ func ruleForeignAppend(p *core.Program) []core.Obligation {
 				return
 			}
 			base := call.Call.Args[0]
-			origin := foreignOrigin(fn, base)
+			origin := foreignOriginDeep(p, fn, base, 2)
 			if origin == "" {
 				return
 			}
@@ -992,6 +994,71 @@ func ruleForeignAppend(p *core.Program) []core.Obligation {
 		obs = append(obs, core.Ob(rule, "no kept append onto a foreign slice in the repo", "-", "", core.Held, "every append onto a parameter-/global-derived slice either copies first or its result is not kept"))
 	}
 	return obs
+}
+
+// foreignOriginDeep extends foreignOrigin: a slice that is a field of a node of the parsed expression is
+// foreign too (the expression is shared with the select hints, other optimizers and the query's String()),
+// and a parameter of an unexported function is followed to the arguments at its call sites.
+func foreignOriginDeep(p *core.Program, fn *ssa.Function, v ssa.Value, depth int) string {
+	if o := foreignOrigin(fn, v); o != "" {
+		return o
+	}
+	return parserOrigin(p, fn, v, depth)
+}
+
+// parserOrigin: v is a slice field of a parser node, possibly handed down through parameters of helpers.
+// (Label sets handed to helpers that edit them in place are rule R-LABELFRESH's subject, not this one's.)
+func parserOrigin(p *core.Program, fn *ssa.Function, v ssa.Value, depth int) string {
+	origin := ""
+	seen := map[ssa.Value]bool{}
+	var walk func(x ssa.Value, d int)
+	walk = func(x ssa.Value, d int) {
+		if x == nil || seen[x] || d > 10 || origin != "" {
+			return
+		}
+		seen[x] = true
+		switch t := x.(type) {
+		case *ssa.Parameter:
+			pf := t.Parent()
+			if depth <= 0 || pf == nil {
+				return
+			}
+			for idx, q := range pf.Params {
+				if q != t {
+					continue
+				}
+				for _, caller := range p.Funcs {
+					core.EachInstr(caller, func(_ *ssa.BasicBlock, _ int, ins ssa.Instruction) {
+						cc := core.CallCommon(ins)
+						if cc == nil || cc.StaticCallee() != pf || idx >= len(cc.Args) || origin != "" {
+							return
+						}
+						if o := parserOrigin(p, caller, cc.Args[idx], depth-1); o != "" {
+							origin = o + " (through " + core.FuncName(pf) + ")"
+						}
+					})
+				}
+			}
+		case *ssa.UnOp:
+			if t.Op == token.MUL {
+				if n, f, _, ok := core.FieldRef(t.X); ok && n != nil && n.Obj().Pkg() != nil && n.Obj().Pkg().Path() == pkgParser {
+					origin = "parser." + n.Obj().Name() + "." + f
+					return
+				}
+				walk(t.X, d+1)
+			}
+		case *ssa.Slice:
+			if t.Max == nil {
+				walk(t.X, d+1)
+			}
+		case *ssa.Phi:
+			for _, e := range t.Edges {
+				walk(e, d+1)
+			}
+		}
+	}
+	walk(v, 0)
+	return origin
 }
 
 // foreignOrigin reports where a slice value comes from if that is a parameter of an exported
